@@ -1,5 +1,5 @@
 use crate::rt::object;
-use crate::rt::{self, Access, Location, Synchronize, VersionVec};
+use crate::rt::{self, Access, Location, Synchronize, VersionVec, MAX_THREADS};
 
 use std::sync::atomic::Ordering::{Acquire, Release, SeqCst};
 
@@ -27,6 +27,16 @@ pub(super) struct State {
     last_ref_dec: Option<Access>,
     last_ref_inspect: Option<Access>,
     last_ref_modification: Option<RefModify>,
+
+    /// Last time each thread inspected the reference count. Inspections are
+    /// independent of each other, so a modification must be checked against
+    /// the last inspection of every thread.
+    last_inspect_by_thread: [Option<Access>; MAX_THREADS],
+
+    /// Last time each thread modified the reference count. An inspection must
+    /// be checked against the last modification of every thread, not only
+    /// against the most recent one.
+    last_modify_by_thread: [Option<Access>; MAX_THREADS],
 }
 
 /// Actions performed on the Arc
@@ -69,6 +79,8 @@ impl Arc {
                 last_ref_dec: None,
                 last_ref_inspect: None,
                 last_ref_modification: None,
+                last_inspect_by_thread: Default::default(),
+                last_modify_by_thread: Default::default(),
             });
 
             trace!(?state, %location, "Arc::new");
@@ -194,17 +206,37 @@ impl State {
         }
     }
 
-    pub(super) fn set_last_access(&mut self, action: Action, path_id: usize, version: &VersionVec) {
+    /// Returns the accesses of other threads that `action` additionally
+    /// depends on
+    pub(super) fn additional_dependent_accesses(&self, action: Action) -> &[Option<Access>] {
+        match action {
+            Action::RefInc | Action::RefDec => &self.last_inspect_by_thread[..],
+            Action::Inspect => &self.last_modify_by_thread[..],
+        }
+    }
+
+    pub(super) fn set_last_access(
+        &mut self,
+        action: Action,
+        thread: usize,
+        path_id: usize,
+        version: &VersionVec,
+    ) {
         match action {
             Action::RefInc => {
                 self.last_ref_modification = Some(RefModify::RefInc);
+                Access::set_or_create(&mut self.last_modify_by_thread[thread], path_id, version);
                 Access::set_or_create(&mut self.last_ref_inc, path_id, version)
             }
             Action::RefDec => {
                 self.last_ref_modification = Some(RefModify::RefDec);
+                Access::set_or_create(&mut self.last_modify_by_thread[thread], path_id, version);
                 Access::set_or_create(&mut self.last_ref_dec, path_id, version)
             }
-            Action::Inspect => Access::set_or_create(&mut self.last_ref_inspect, path_id, version),
+            Action::Inspect => {
+                Access::set_or_create(&mut self.last_inspect_by_thread[thread], path_id, version);
+                Access::set_or_create(&mut self.last_ref_inspect, path_id, version)
+            }
         }
     }
 }
